@@ -117,6 +117,70 @@ def build_matrix():
     for omit in ([], ["norm"]):
         add("covariance_eig", ["norm"], omit, bool(omit))
         add("covariance_eig", ["norm"], omit, bool(omit), {"eigvals_only": True})
+    # ---- argument TYPES (numpy ints / floats / bools where Python ones are usual) and every public keyword that gates
+    # validation or changes the path through fit / the tool (check_input, sample_weight=None, copy, warm_start, n_jobs …)
+    for t in BOUNDS_TOOLS:
+        # (axis=np.int64(0) and keepdims=np.bool_(True) are refused with a TypeError by the library / numpy: no release)
+        kws = [{"axis": "tuple:0"}, {"keepdims": True}, {"epsilon": "np.float64:1.0"}]
+        if t not in ("quantile", "percentile", "median"):
+            kws += [{"dtype": "type:float"}, {"dtype": "type:np.float32"}]
+        for kw in kws:
+            for omit in ([], ["bounds"]):
+                add(t, ["bounds"], omit, bool(omit), {"kw": kw})
+    for bt in ("np.int64:4", "np.int32:5", "np.uint8:3", "astype:4", "str:sqrt", "edges"):
+        for omit in ([], ["range"]):
+            # with explicit edges numpy ignores `range`; a count (of ANY integer type) or a rule name takes it from the data
+            add("histogram", ["range"], omit, bool(omit) and bt != "edges", {"bins_t": bt})
+            add("histogram", ["range"], omit, bool(omit) and bt != "edges", {"bins_t": bt, "kw": {"weights": None, "density": False}})
+            if bt.startswith("str:") and not omit:
+                # a rule name makes numpy choose the NUMBER of bins from the data's spread even inside a given range: the
+                # caller asked for it explicitly and the property's list (bounds, range, norm, classes) does not name it
+                cells[-1]["note_only"] = cells[-2]["note_only"] = "bins=<rule name> with range given: bin count is data-derived"
+    for entry in ("histogramdd", "histogram2d"):
+        for bp in ("nscalar", "nn", "nc", "ne"):
+            cnt = [True, True] if bp in ("nscalar", "nn", "nc") else [True, False]
+            add(entry, ["range"], ["range"], True, {"nd": 2, "bins": bp, "form": "none", "missing": [True, True]},
+                flags=[True], shapes=["n"])
+            for form in ("list", "tuple"):
+                for miss in itertools.product([False, True], repeat=2):
+                    needs = any(c and m for c, m in zip(cnt, miss))
+                    tok = ("l" if form == "list" else "t") + ("T" if any(miss) else "F")
+                    add(entry, ["range"], ["range"] if any(miss) else [], needs,
+                        {"nd": 2, "bins": bp, "form": form, "missing": list(miss)}, flags=[True], shapes=[tok])
+    model_variants = {
+        "GaussianNB": [{"fit": {"sample_weight": None}}, {"ctor": {"var_smoothing": "np.float64:1e-9"}},
+                       {"ctor": {"priors": [0.3, 0.3, 0.4]}}, {"ctor": {"epsilon": "np.float64:1.0"}}],
+        "KMeans": [{"ctor": {"n_clusters": "np.int64:2"}}, {"fit": {"y": None, "sample_weight": None}},
+                   {"ctor": {"epsilon": "np.float64:5.0"}}],
+        "StandardScaler": [{"ctor": {"copy": False}}, {"ctor": {"with_mean": False}}, {"ctor": {"with_std": False}},
+                           {"ctor": {"with_mean": False, "with_std": False}}, {"ctor": {"copy": "np.bool_:0"}},
+                           {"fit": {"y": None, "sample_weight": None}}],
+        "LogisticRegression": [{"ctor": {"C": "np.float64:1.0", "max_iter": "np.int64:20"}}, {"ctor": {"warm_start": True}},
+                               {"ctor": {"fit_intercept": False}}, {"fit": {"sample_weight": None}}, {"ctor": {"n_jobs": 1}}],
+        "RandomForestClassifier": [{"ctor": {"n_estimators": "np.int64:2", "max_depth": "np.int64:2"}},
+                                   {"ctor": {"shuffle": True}}, {"ctor": {"warm_start": True}}, {"ctor": {"n_jobs": 2}},
+                                   {"fit": {"sample_weight": None}}],
+        "DecisionTreeClassifier": [{"ctor": {"max_depth": "np.int64:2"}}, {"fit": {"check_input": False}},
+                                   {"fit": {"check_input": "np.bool_:0"}}, {"fit": {"sample_weight": None, "check_input": True}}],
+    }
+    for m, vs in model_variants.items():
+        params = {"LogisticRegression": ["data_norm"], "RandomForestClassifier": ["bounds", "classes"],
+                  "DecisionTreeClassifier": ["bounds", "classes"]}.get(m, ["bounds"])
+        for v in vs:
+            for omit in subsets(params):
+                add(m, params, omit, bool(omit), v)
+    for v in ({"ctor": {"copy_X": False}}, {"fit": {"sample_weight": None}}, {"ctor": {"fit_intercept": "np.bool_:1"}}):
+        for omit in subsets(["bounds_X", "bounds_y"]):
+            add("LinearRegression", ["bounds_X", "bounds_y"], omit, bool(omit), v)
+    for v in ({"ctor": {"n_components": "np.int64:2"}}, {"ctor": {"n_components": None}}, {"ctor": {"n_components": 0.9}},
+              {"ctor": {"whiten": True}}, {"ctor": {"copy": False}}, {"fit": {"y": None}}):
+        for centered in (False, True):
+            for omit in subsets(["bounds", "data_norm"]):
+                needs = ("data_norm" in omit) or ("bounds" in omit and not centered)
+                add("PCA", ["bounds", "data_norm"], omit, needs, dict(v, centered=centered), flags=[centered])
+    for v in ({"kw": {"dims": "np.int64:2"}}, {"kw": {"dims": 1}}, {"kw": {"epsilon": "np.float64:2.0"}}):
+        for omit in ([], ["norm"]):
+            add("covariance_eig", ["norm"], omit, bool(omit), v)
     for i, c in enumerate(cells):
         c["id"] = i
     return cells
@@ -151,37 +215,66 @@ def _dataset(seed, c):
     return X, y
 
 
+def _dv(v):
+    """decode a typed argument of the matrix ("np.int64:4", "tuple:0", "type:float", …)"""
+    if not isinstance(v, str) or ":" not in v:
+        return v
+    t, x = v.split(":", 1)
+    if t.startswith("np."):
+        return getattr(np, t[3:])(float(x) if "float" in t else int(x))
+    if t == "astype":
+        return np.array([float(x)]).astype(int)[0]
+    if t == "tuple":
+        return (int(x),)
+    if t == "type":
+        return {"float": float, "np.float32": np.float32, "int": int}[x]
+    if t == "str":
+        return x
+    return v
+
+
+def _dkw(d):
+    return {k: _dv(v) for k, v in (d or {}).items()}
+
+
 def _make_call(c, X, y):
     """returns a zero-argument callable performing the call described by the cell (fresh estimator / accountant)"""
     import diffprivlib as d
     e, v, omit = c["entry"], c["variant"], c["omit"]
     T, M = d.tools, d.models
-    kw = {}
     acc = lambda: d.BudgetAccountant()  # noqa: E731
+    xkw, ckw, fkw = _dkw(v.get("kw")), _dkw(v.get("ctor")), _dkw(v.get("fit"))
     if e == "count_nonzero":
-        return lambda: T.count_nonzero(X > 0, epsilon=1.0, accountant=acc(), **{k: v[k] for k in ("axis",) if k in v})
+        return lambda: T.count_nonzero(X > 0, accountant=acc(), **dict({"epsilon": 1.0}, **{k: v[k] for k in ("axis",) if k in v}))
     if e in BOUNDS_TOOLS:
+        kw = {"epsilon": 1.0}
         if "bounds" not in omit:
             kw["bounds"] = (-1.0, 1.0)
         for k in ("axis", "keepdims"):
             if k in v:
                 kw[k] = v[k]
+        kw.update(xkw)
         f = getattr(T, e)
         if e == "quantile":
-            return lambda: f(X, [0.2, 0.8] if v.get("multi") else 0.3, epsilon=1.0, accountant=acc(), **kw)
+            return lambda: f(X, [0.2, 0.8] if v.get("multi") else 0.3, accountant=acc(), **kw)
         if e == "percentile":
-            return lambda: f(X, [20, 80] if v.get("multi") else 30, epsilon=1.0, accountant=acc(), **kw)
-        return lambda: f(X, epsilon=1.0, accountant=acc(), **kw)
+            return lambda: f(X, [20, 80] if v.get("multi") else 30, accountant=acc(), **kw)
+        return lambda: f(X, accountant=acc(), **kw)
     if e == "histogram":
+        kw = {"epsilon": 1.0}
         if "range" not in omit:
             kw["range"] = (-1.0, 1.0)
         if v.get("density"):
             kw["density"] = True
-        return lambda: T.histogram(X[:, 0], epsilon=1.0, bins=4, accountant=acc(), **kw)
+        bt = v.get("bins_t")
+        bins = 4 if bt is None else (np.linspace(-1.0, 1.0, 5) if bt == "edges" else _dv(bt))
+        kw.update(xkw)
+        return lambda: T.histogram(X[:, 0], bins=bins, accountant=acc(), **kw)
     if e in ("histogramdd", "histogram2d"):
         nd = v["nd"]
         edges = np.linspace(-1.0, 1.0, 4)
-        bins = 3 if v["bins"] == "scalar" else [3 if ch == "c" else edges for ch in v["bins"]]
+        one = {"c": 3, "e": edges, "n": np.int64(3)}
+        bins = 3 if v["bins"] == "scalar" else (np.int64(3) if v["bins"] == "nscalar" else [one[ch] for ch in v["bins"]])
         if v["form"] == "none":
             rng = None
         else:
@@ -200,17 +293,24 @@ def _make_call(c, X, y):
     nd = X.shape[1]
     b = (-np.ones(nd), np.ones(nd))
     meth = v.get("method", "fit")
+
+    def ctor(cls, **base):
+        base.update(ckw)
+        return lambda: cls(accountant=acc(), **base)
     if e == "GaussianNB":
         k = {} if "bounds" in omit else {"bounds": b}
+        mk = ctor(M.GaussianNB, epsilon=1.0, **k)
         if meth == "partial_fit":
-            return lambda: M.GaussianNB(epsilon=1.0, accountant=acc(), **k).partial_fit(X, y, classes=[0, 1, 2])
-        return lambda: M.GaussianNB(epsilon=1.0, accountant=acc(), **k).fit(X, y)
+            return lambda: mk().partial_fit(X, y, classes=[0, 1, 2], **fkw)
+        return lambda: mk().fit(X, y, **fkw)
     if e == "KMeans":
         k = {} if "bounds" in omit else {"bounds": b}
-        return lambda: getattr(M.KMeans(n_clusters=2, epsilon=5.0, accountant=acc(), **k), meth)(X)
+        mk = ctor(M.KMeans, n_clusters=2, epsilon=5.0, **k)
+        return lambda: getattr(mk(), meth)(X, **fkw)
     if e == "StandardScaler":
         k = {} if "bounds" in omit else {"bounds": b}
-        return lambda: getattr(M.StandardScaler(epsilon=1.0, accountant=acc(), **k), meth)(X)
+        mk = ctor(M.StandardScaler, epsilon=1.0, **k)
+        return lambda: getattr(mk(), meth)(X.copy(), **fkw)
     if e == "LinearRegression":
         k = {}
         if "bounds_X" not in omit:
@@ -218,19 +318,21 @@ def _make_call(c, X, y):
         if "bounds_y" not in omit:
             k["bounds_y"] = (-1.0, 1.0)
         yr = np.clip(X.sum(axis=1), -1, 1)
-        return lambda: M.LinearRegression(epsilon=2.0, fit_intercept=v.get("fit_intercept", True), accountant=acc(),
-                                          **k).fit(X, yr)
+        mk = ctor(M.LinearRegression, epsilon=2.0, fit_intercept=v.get("fit_intercept", True), **k)
+        return lambda: mk().fit(X.copy(), yr, **fkw)
     if e == "LogisticRegression":
         k = {} if "data_norm" in omit else {"data_norm": 1.5}
         yy = y if v.get("multiclass") else (y > 0).astype(int)
-        return lambda: M.LogisticRegression(epsilon=2.0, max_iter=20, accountant=acc(), **k).fit(X, yy)
+        mk = ctor(M.LogisticRegression, epsilon=2.0, max_iter=20, **k)
+        return lambda: mk().fit(X, yy, **fkw)
     if e == "PCA":
         k = {}
         if "bounds" not in omit:
             k["bounds"] = b
         if "data_norm" not in omit:
             k["data_norm"] = 2.5
-        return lambda: getattr(M.PCA(n_components=2, epsilon=2.0, centered=v["centered"], accountant=acc(), **k), meth)(X)
+        mk = ctor(M.PCA, n_components=2, epsilon=2.0, centered=v["centered"], **k)
+        return lambda: getattr(mk(), meth)(X.copy(), **fkw)
     if e in ("RandomForestClassifier", "DecisionTreeClassifier"):
         k = {}
         if "bounds" not in omit:
@@ -238,12 +340,15 @@ def _make_call(c, X, y):
         if "classes" not in omit:
             k["classes"] = [0, 1, 2]
         if e == "RandomForestClassifier":
-            return lambda: M.RandomForestClassifier(n_estimators=2, epsilon=2.0, max_depth=2, accountant=acc(), **k).fit(X, y)
-        return lambda: M.DecisionTreeClassifier(epsilon=2.0, max_depth=2, accountant=acc(), **k).fit(X, y)
+            mk = ctor(M.RandomForestClassifier, n_estimators=2, epsilon=2.0, max_depth=2, **k)
+        else:
+            mk = ctor(M.DecisionTreeClassifier, epsilon=2.0, max_depth=2, **k)
+        return lambda: mk().fit(X, y, **fkw)
     if e == "covariance_eig":
         k = {} if "norm" in omit else {"norm": 1.5}
+        k.update(xkw)
         from diffprivlib.models.utils import covariance_eig
-        return lambda: covariance_eig(X, epsilon=2.0, eigvals_only=v.get("eigvals_only", False), **k)
+        return lambda: covariance_eig(X, **dict({"epsilon": 2.0, "eigvals_only": v.get("eigvals_only", False)}, **k))
     raise KeyError(e)
 
 
@@ -339,6 +444,11 @@ def judge(ctx, c, rec, model_out):
     """direct property check + correspondence for one (cell, seed) record"""
     n1, n2 = rec["n"]
     key = cell_key(c)
+    if c.get("note_only"):
+        if rec.get("derive_obs") and n1 == 0:
+            ctx.note(f"report-only: {key}: {c['note_only']}; edges differ between two datasets, {n1} PrivacyLeakWarning")
+        ctx.case(None)
+        return
     data = {"cell": c, "seed": rec["seed"], "recorded_privacy_leak_warnings": rec["n"], "errors": rec["err"]}
     if any(e for e in rec["err"][:2]):
         # a call that raises is not a release; but the matrix is built from calls that are supposed to work
@@ -365,7 +475,8 @@ def judge(ctx, c, rec, model_out):
     if m is None:
         ctx.disagree("guard-table", {"cell": key}, model_out, rec["n"], note="driver could not evaluate the cell")
         return
-    ok = (m["d"] == "1") == c["needs"] or (c["entry"] in ("histogramdd", "histogram2d") and m["d"] == "1" and not c["needs"])
+    ok = (m["d"] == "1") == c["needs"] or (c["entry"] in ("histogram", "histogramdd", "histogram2d") and m["d"] == "1"
+                                             and not c["needs"])
     # for histogramdd the table's `derive` is the abstraction (some count bin AND some missing entry): it may
     # over-approximate the per-dimension fact, never under-approximate it
     if c["needs"] and m["d"] != "1":
